@@ -1860,6 +1860,7 @@ class Connection(utils.CompositeEventEmitter):
         self.peer_classic_features = hci.LmpFeatureMask(0)
         self.cs_configs = {}
         self.cs_procedures = {}
+        self.is_disconnected = False
 
     @property
     def role_name(self):
@@ -2101,6 +2102,11 @@ class Connection(utils.CompositeEventEmitter):
         """
         Helper method to call `utils.cancel_on_event` for the 'disconnection' event
         """
+        if self.is_disconnected:
+            # The disconnection has already occurred, the event will not come
+            future = asyncio.ensure_future(awaitable)
+            future.cancel('abort: already disconnected.')
+            return future
         return utils.cancel_on_event(self, self.EVENT_DISCONNECTION, awaitable)
 
     async def __aenter__(self):
@@ -5607,6 +5613,7 @@ class Device(utils.CompositeEventEmitter):
     def on_flush(self):
         self.emit(self.EVENT_FLUSH)
         for _, connection in self.connections.items():
+            connection.is_disconnected = True
             connection.emit(connection.EVENT_DISCONNECTION, 0)
         self.connections = {}
 
@@ -6153,6 +6160,7 @@ class Device(utils.CompositeEventEmitter):
                 f'*** Disconnection: [0x{connection.handle:04X}] '
                 f'{connection.peer_address} as {connection.role_name}, reason={reason}'
             )
+            connection.is_disconnected = True
             connection.emit(connection.EVENT_DISCONNECTION, reason)
 
             # Cleanup subsystems that maintain per-connection state
